@@ -1407,16 +1407,31 @@ var _ uuid.UUID
 // ---------------------------------------------------------------------------------------------
 // C05: who may bootstrap a raft group. loadRaft with a non-empty peer list means etcd StartNode (a brand-new log at term 1).
 
+// what starting or stopping the raft group of ONE partition leaves alone: the catalogue (map, manager wiring, the datasets'
+// partition lists and records), a catalogue snapshot that is being restored, and byte strings (ids). Stated once, used as the
+// frame of the whole load/unload chain (loadRaft, RaftGroup.Start, the group's snapshot consumer, unloadRaft).
+//@ frameset catalogue = maps[map[uuid.UUID]*Dataset]; maps[map[uuid.UUID]*partition]; maps[map[uuid.UUID]struct{}]; type DatasetManager.datasets; type DatasetManager.notificator; type DatasetManager.allocator; type DatasetManager.clusterConn; type DatasetManager.raft; type Dataset.partitions; type Dataset.partitionsMap; type Dataset.meta; type Dataset.id; mem[*partition]; type partition.id; type partition.meta; type partition.dataset; type partition.raftTransport; type partition.raftMu; type partition.log; type partition.wal; type pb.DatasetManagerSnapshot.Datasets; mem[*pb.Dataset]; type pb.Dataset.Id; type pb.Dataset.PartitionCount; type pb.Dataset.Partitions; mem[*pb.Partition]; type pb.Partition.Id; type pb.Partition.NodeIds; mem[uint64]; mem[byte]; type raft.RaftTransport.nodeId; type Allocator.partitions
+
 //@ func (*storage.partition).loadRaft
-//@ props C05
+//@ props C05 C14
 //@ safety C12
 //@ requires [wf] this.raftMu != nil && this.log != nil && this.raftTransport != nil && !isnil(this.wal)
-//@ modifies *
+//@ modifies * except set catalogue
 
 //@ func (*storage.partition).unloadRaft
-//@ props C05 C06
+//@ props C05 C06 C14
 //@ assume
-//@ modifies *
+//@ modifies * except set catalogue
+
+// C14: bringing a partition's replica set to a recorded one (snapshot restore): afterwards the partition lists exactly the
+// recorded nodes, in the recorded order, in a list of its own
+//@ func (*storage.partition).setNodes
+//@ props C14
+//@ safety UNCLAIMED
+//@ requires [wf] this.meta != nil
+//@ ensures [C14 exactly-the-recorded-set] len(this.meta.NodeIds) == len(nodeIds) && forall i int :: 0 <= i && i < len(nodeIds) ==> this.meta.NodeIds[i] == nodeIds[i]
+//@ ensures [C14 own-list] len(nodeIds) > 0 ==> fresh(this.meta.NodeIds)
+//@ modifies * except maps[map[uuid.UUID]*Dataset]; maps[map[uuid.UUID]*partition]; maps[map[uuid.UUID]struct{}]; type DatasetManager.datasets; type DatasetManager.notificator; type DatasetManager.allocator; type DatasetManager.clusterConn; type DatasetManager.raft; type Dataset.partitions; type Dataset.partitionsMap; type Dataset.meta; type Dataset.id; mem[*partition]; type partition.id; type partition.meta; type partition.dataset; type partition.raftTransport; type partition.raftMu; type partition.log; type partition.wal; type pb.DatasetManagerSnapshot.Datasets; mem[*pb.Dataset]; type pb.Dataset.Id; type pb.Dataset.PartitionCount; type pb.Dataset.Partitions; mem[*pb.Partition]; type pb.Partition.Id; mem[byte]; type raft.RaftTransport.nodeId; type Allocator.partitions
 
 // ---------------------------------------------------------------------------------------------
 // C14: the dataset catalogue as a replicated state machine. cat(dm) = dm.datasets : id -> dataset (with its meta record).
@@ -1527,33 +1542,67 @@ var _ uuid.UUID
 //@ spec inSnap(ds []*pb.Dataset, j uuid.UUID, n int) bool = exists i int :: 0 <= i && i < n && snapId(ds, i) == j
 
 // C14: restoring a catalogue snapshot into ANY manager state yields exactly the snapshot's catalogue (ids).
+//@ spec mapPartsOK(d *Dataset) bool = forall id uuid.UUID :: has(d.partitionsMap, id) ==> d.partitionsMap[id] != nil && d.partitionsMap[id].meta != nil
 //@ func (*storage.DatasetManager).processSnapshot
 //@ props C14
 //@ safety C12
 //@ at call proto.Unmarshal
 //@ assume [wellformed-snapshot: a catalogue snapshot lists records of datasets that were created from well-formed records] isnil($ret0) ==> forall i int :: 0 <= i && i < len(dmSnapshot.Datasets) ==> dmSnapshot.Datasets[i] != nil && snapRecordOK(dmSnapshot.Datasets[i])
 //@ end
+// replica sets (stated for an arbitrary fixed snapshot record theD): if that dataset was known already, its record is handed to
+// restoreReplicaSets of exactly that dataset (which brings every partition named in the record to the recorded node list)
+//@ ghost theD int = any
+//@ ghost done int = 0
+//@ at call Dataset).restoreReplicaSets
+//@ requires [C14 replica-sets-from-the-snapshot-record] $arg1 == dataset && $arg0 == this.datasets[uuidOfBytes(dataset.Id)] && has(this.datasets, uuidOfBytes(dataset.Id))
+//@ set done = ite(0 <= theD && theD < len(dmSnapshot.Datasets) && dataset == dmSnapshot.Datasets[theD], 1, done)
+//@ end
 //@ requires [wf] dmwf(this) && this.clusterConn != nil
-//@ requires [entries] forall j uuid.UUID :: has(this.datasets, j) ==> this.datasets[j] != nil && noNilPartitions(this.datasets[j])
+//@ requires [entries] forall j uuid.UUID :: has(this.datasets, j) ==> this.datasets[j] != nil && noNilPartitions(this.datasets[j]) && this.datasets[j].partitionsMap != this.allocator.partitions
+//@ requires [entries-map] forall j uuid.UUID, k uuid.UUID :: has(this.datasets, j) && has(this.datasets[j].partitionsMap, k) ==> this.datasets[j].partitionsMap[k] != nil && this.datasets[j].partitionsMap[k].meta != nil
 //@ ensures [exact] isnil(ret) ==> forall j uuid.UUID :: has(this.datasets, j) == inSnap(dmSnapshot.Datasets, j, len(dmSnapshot.Datasets))
-//@ ensures [kept-as-they-were] isnil(ret) ==> forall j uuid.UUID :: has(this.datasets, j) && old(has(this.datasets, j)) ==> this.datasets[j] == old(this.datasets[j])
-//@ modifies map(this.datasets), map(this.allocator.partitions)
+//@ ensures [C14 known-datasets-get-the-recorded-replica-sets] isnil(ret) && 0 <= theD && theD < len(dmSnapshot.Datasets) && old(has(this.datasets, snapId(dmSnapshot.Datasets, theD))) ==> done == 1
+//@ modifies *
 //@ loop 1
 //@ invariant [ids] snapshotIds != nil && fresh(snapshotIds) && forall j uuid.UUID :: has(snapshotIds, j) == inSnap(dmSnapshot.Datasets, j, rangeindex + 1)
 //@ invariant [added] forall j uuid.UUID :: inSnap(dmSnapshot.Datasets, j, rangeindex + 1) ==> has(this.datasets, j)
 //@ invariant [nothing-else] forall j uuid.UUID :: has(this.datasets, j) ==> old(has(this.datasets, j)) || inSnap(dmSnapshot.Datasets, j, rangeindex + 1)
 //@ invariant [old-kept] forall j uuid.UUID :: old(has(this.datasets, j)) ==> has(this.datasets, j) && this.datasets[j] == old(this.datasets[j])
-//@ invariant [entries] forall j uuid.UUID :: has(this.datasets, j) ==> this.datasets[j] != nil && noNilPartitions(this.datasets[j])
+//@ invariant [entries] forall j uuid.UUID :: has(this.datasets, j) ==> this.datasets[j] != nil && noNilPartitions(this.datasets[j]) && this.datasets[j].partitionsMap != this.allocator.partitions
+//@ invariant [entries-map] forall j uuid.UUID, k uuid.UUID :: has(this.datasets, j) && has(this.datasets[j].partitionsMap, k) ==> this.datasets[j].partitionsMap[k] != nil && this.datasets[j].partitionsMap[k].meta != nil
 //@ invariant [snapshot-fixed] dmwf(this) && this.clusterConn != nil && forall i int :: 0 <= i && i < len(dmSnapshot.Datasets) ==> dmSnapshot.Datasets[i] == old(dmSnapshot.Datasets[i]) && dmSnapshot.Datasets[i] != nil && snapRecordOK(dmSnapshot.Datasets[i])
+//@ invariant [C14 replica-sets-so-far] 0 <= theD && theD <= rangeindex && old(has(this.datasets, snapId(dmSnapshot.Datasets, theD))) ==> done == 1
+//@ loop 2
+//@ invariant [new-entry] has(this.datasets, id) && this.datasets[id] != nil && wfDatasetFull(this.datasets[id]) && noNilPartitions(this.datasets[id]) && this.datasets[id].partitionsMap != this.allocator.partitions
+//@ invariant [entries-map] forall j uuid.UUID, k uuid.UUID :: has(this.datasets, j) && has(this.datasets[j].partitionsMap, k) ==> this.datasets[j].partitionsMap[k] != nil && this.datasets[j].partitionsMap[k].meta != nil
 //@ loop 3
 //@ invariant [ids] snapshotIds != nil && forall j uuid.UUID :: has(snapshotIds, j) == inSnap(dmSnapshot.Datasets, j, len(dmSnapshot.Datasets))
 //@ invariant [snap-present] forall j uuid.UUID :: has(snapshotIds, j) ==> has(this.datasets, j)
 //@ invariant [visited-pruned] forall j uuid.UUID :: $visited[j] && !has(snapshotIds, j) ==> !has(this.datasets, j)
 //@ invariant [only-deletions] forall j uuid.UUID :: has(this.datasets, j) ==> $start[j]
-//@ invariant [kept] forall j uuid.UUID :: has(this.datasets, j) && old(has(this.datasets, j)) ==> this.datasets[j] == old(this.datasets[j])
-//@ invariant [entries] dmwf(this) && forall j uuid.UUID :: has(this.datasets, j) ==> this.datasets[j] != nil && noNilPartitions(this.datasets[j])
+//@ invariant [entries] dmwf(this) && forall j uuid.UUID :: has(this.datasets, j) ==> this.datasets[j] != nil && noNilPartitions(this.datasets[j]) && this.datasets[j].partitionsMap != this.allocator.partitions
 //@ loop 4
 //@ invariant [ids] snapshotIds != nil
+
+// C14: every partition record of a catalogue record is applied to the partition it names (stated for an arbitrary fixed record
+// theP): that partition is looked up in THIS dataset under the recorded id and brought to exactly the recorded node list
+//@ func (*storage.Dataset).restoreReplicaSets
+//@ props C14
+//@ safety C12
+//@ ghost theP int = any
+//@ ghost applied int = 0
+//@ at call partition).setNodes
+//@ requires [C14 the-named-partition-gets-the-recorded-nodes] $arg1 == partitionMeta.NodeIds && has(this.partitionsMap, uuidOfBytes(partitionMeta.Id)) && $arg0 == this.partitionsMap[uuidOfBytes(partitionMeta.Id)]
+//@ set applied = ite(0 <= theP && theP < len(meta.Partitions) && partitionMeta == meta.Partitions[theP], 1, applied)
+//@ end
+//@ requires [wf] meta != nil && forall i int :: 0 <= i && i < len(meta.Partitions) ==> meta.Partitions[i] != nil
+//@ requires [partitions] forall id uuid.UUID :: has(this.partitionsMap, id) ==> this.partitionsMap[id] != nil && this.partitionsMap[id].meta != nil
+//@ ensures [C14 every-record-applied] isnil(ret) && 0 <= theP && theP < len(meta.Partitions) ==> applied == 1
+//@ modifies * except set catalogue
+//@ loop 1
+//@ invariant [C14 records-so-far] 0 <= theP && theP <= rangeindex ==> applied == 1
+//@ invariant [record-fixed] meta != nil && forall i int :: 0 <= i && i < len(meta.Partitions) ==> meta.Partitions[i] != nil && meta.Partitions[i] == old(meta.Partitions[i])
+//@ invariant [partitions] forall id uuid.UUID :: has(this.partitionsMap, id) ==> this.partitionsMap[id] != nil && this.partitionsMap[id].meta != nil
 
 // C14 / C10: a catalogue snapshot lists the record of every dataset, each as the catalogue holds it - in particular with its
 // partitions in the catalogue's order (routing is positional: partition i owns the ids with UuidMod(id, n) == i)
@@ -1572,10 +1621,65 @@ var _ uuid.UUID
 //@ invariant [C14 every-visited-listed] forall id uuid.UUID :: $visited[id] ==> exists k int :: 0 <= k && k < i && datasets[k] != nil && sameRecord(datasets[k], this.datasets[id].meta)
 //@ invariant [C14 only-datasets-listed] forall k int :: 0 <= k && k < i ==> exists id uuid.UUID :: $visited[id] && has(this.datasets, id) && sameRecord(datasets[k], this.datasets[id].meta)
 
+// C14 (replica-set changes): the node list of a partition as a replicated value. addNode appends, removeNode filters; the raft
+// group of the local node is started/stopped after the list has been changed (the load/unload chain leaves the lists alone)
+//@ frameset cataloguekeys = maps[map[uuid.UUID]*Dataset]; maps[map[uuid.UUID]*partition]; maps[map[uuid.UUID]struct{}]; type DatasetManager.datasets; type DatasetManager.notificator; type DatasetManager.allocator; type DatasetManager.clusterConn; type DatasetManager.raft; type Dataset.partitions; type Dataset.partitionsMap; type Dataset.meta; type Dataset.id; mem[*partition]; type partition.id; type partition.meta; type partition.dataset; type partition.raftTransport; type partition.raftMu; type partition.log; type partition.wal; type pb.DatasetManagerSnapshot.Datasets; mem[*pb.Dataset]; type pb.Dataset.Id; type pb.Dataset.PartitionCount; type pb.Dataset.Partitions; mem[*pb.Partition]; type pb.Partition.Id; mem[byte]; type raft.RaftTransport.nodeId; type Allocator.partitions
+//@ func (*storage.partition).addNode
+//@ props C14
+//@ safety UNCLAIMED
+//@ requires [wf] this.meta != nil
+//@ ensures [C14 appended] len(this.meta.NodeIds) == old(len(this.meta.NodeIds)) + 1 && this.meta.NodeIds[old(len(this.meta.NodeIds))] == nodeId
+//@ ensures [C14 earlier-nodes-kept] forall i int :: 0 <= i && i < old(len(this.meta.NodeIds)) ==> this.meta.NodeIds[i] == old(this.meta.NodeIds[i])
+//@ modifies * except set cataloguekeys
+
+//@ func (*storage.partition).removeNode
+//@ props C14
+//@ safety UNCLAIMED
+//@ requires [wf] this.meta != nil
+//@ ensures [C14 removed] forall j int :: 0 <= j && j < len(this.meta.NodeIds) ==> this.meta.NodeIds[j] != nodeId
+//@ ensures [C14 nothing-new] forall j int :: 0 <= j && j < len(this.meta.NodeIds) ==> exists i int :: 0 <= i && i < old(len(this.meta.NodeIds)) && this.meta.NodeIds[j] == old(this.meta.NodeIds[i])
+//@ ensures [C14 others-kept] forall i int :: 0 <= i && i < old(len(this.meta.NodeIds)) && old(this.meta.NodeIds[i]) != nodeId ==> exists j int :: 0 <= j && j < len(this.meta.NodeIds) && this.meta.NodeIds[j] == old(this.meta.NodeIds[i])
+//@ modifies * except set cataloguekeys
+//@ loop 1
+//@ invariant [own-list] cap(newNodeIds) == 0 || fresh(newNodeIds)
+//@ invariant [list-fixed] this.meta != nil && this.meta.NodeIds == old(this.meta.NodeIds) && forall i int :: 0 <= i && i < len(this.meta.NodeIds) ==> this.meta.NodeIds[i] == old(this.meta.NodeIds[i])
+//@ invariant [C14 removed] forall j int :: 0 <= j && j < len(newNodeIds) ==> newNodeIds[j] != nodeId
+//@ invariant [C14 nothing-new] forall j int :: 0 <= j && j < len(newNodeIds) ==> exists i int :: 0 <= i && i <= rangeindex && newNodeIds[j] == old(this.meta.NodeIds[i])
+//@ invariant [C14 others-kept] forall i int :: 0 <= i && i <= rangeindex && old(this.meta.NodeIds[i]) != nodeId ==> exists j int :: 0 <= j && j < len(newNodeIds) && newNodeIds[j] == old(this.meta.NodeIds[i])
+
+// one replica-set entry changes the node list of exactly the partition it names, by exactly the node it names, and answers once
 //@ func (*storage.DatasetManager).updatePartitionNodes
 //@ props C14
-//@ assume
-//@ modifies *
+//@ safety C12
+//@ ghost notified int = 0
+//@ ghost outcome interface{} = nil
+//@ ghost added int = 0
+//@ ghost removed int = 0
+//@ ghost kind int = 0 - 1
+//@ at call proto.Unmarshal
+//@ set kind = change.Type
+//@ end
+//@ at call Notificator).Notify
+//@ set notified = notified + 1
+//@ set outcome = $arg2
+//@ end
+//@ at call partition).addNode
+//@ requires [C14 adds-the-named-node-to-the-named-partition] change.Type == 0 && $arg1 == change.NodeId && has(this.datasets, uuidOfBytes(change.DatasetId)) && has(this.datasets[uuidOfBytes(change.DatasetId)].partitionsMap, uuidOfBytes(change.PartitionId)) && $arg0 == this.datasets[uuidOfBytes(change.DatasetId)].partitionsMap[uuidOfBytes(change.PartitionId)]
+//@ set added = added + 1
+//@ end
+//@ at call partition).removeNode
+//@ requires [C14 removes-the-named-node-from-the-named-partition] change.Type == 1 && $arg1 == change.NodeId && has(this.datasets, uuidOfBytes(change.DatasetId)) && has(this.datasets[uuidOfBytes(change.DatasetId)].partitionsMap, uuidOfBytes(change.PartitionId)) && $arg0 == this.datasets[uuidOfBytes(change.DatasetId)].partitionsMap[uuidOfBytes(change.PartitionId)]
+//@ set removed = removed + 1
+//@ end
+//@ requires [wf] dmwf(this)
+//@ requires [entries] forall j uuid.UUID :: has(this.datasets, j) ==> this.datasets[j] != nil
+//@ requires [entries-map] forall j uuid.UUID, k uuid.UUID :: has(this.datasets, j) && has(this.datasets[j].partitionsMap, k) ==> this.datasets[j].partitionsMap[k] != nil && this.datasets[j].partitionsMap[k].meta != nil
+//@ ensures [notify-once] isnil(ret) ==> notified == 1
+//@ ensures [C14 one-change] isnil(ret) && isnil(outcome) ==> (kind == 0 ==> added == 1 && removed == 0) && (kind == 1 ==> removed == 1 && added == 0) && added + removed <= 1
+//@ ensures [C14 refused-changes-nothing] isnil(ret) && !isnil(outcome) ==> added == 0 && removed == 0
+//@ ensures [C14 undecodable-changes-nothing] !isnil(ret) ==> notified == 0 && added == 0 && removed == 0
+//@ ensures [C14 same-datasets] forall j uuid.UUID :: has(this.datasets, j) == old(has(this.datasets, j)) && this.datasets[j] == old(this.datasets[j])
+//@ modifies * except maps[map[uuid.UUID]*Dataset]; maps[map[uuid.UUID]*partition]; type DatasetManager.datasets; type Dataset.partitions; type Dataset.partitionsMap; mem[*partition]; type partition.meta; type partition.id
 
 // C14: one catalogue entry is applied by exactly one of the three apply functions (none is skipped silently for a known type)
 //@ func (*storage.DatasetManager).process
@@ -1597,6 +1701,7 @@ var _ uuid.UUID
 //@ end
 //@ requires [wf] dmwf(this)
 //@ requires [entries] forall j uuid.UUID :: has(this.datasets, j) ==> this.datasets[j] != nil && noNilPartitions(this.datasets[j])
+//@ requires [entries-map] forall j uuid.UUID, k uuid.UUID :: has(this.datasets, j) && has(this.datasets[j].partitionsMap, k) ==> this.datasets[j].partitionsMap[k] != nil && this.datasets[j].partitionsMap[k].meta != nil
 //@ ensures [applied-once] decoded == 1 && len(change.NotificationId) == 16 && change.Type >= 0 && change.Type <= 2 ==> applied == 1
 //@ ensures [undecodable-applies-nothing] decoded == 0 ==> applied == 0
 //@ modifies *
